@@ -676,7 +676,7 @@ def _exact_sqrt(q):
 
 def int_range(ty):
     ty = ty.strip()
-    table = {"u8": (0, 255), "u16": (0, 65535), "u32": (0, 2 ** 32 - 1), "u64": (0, 2 ** 64 - 1),
+    table = {"char": (0, 0x10FFFF), "u8": (0, 255), "u16": (0, 65535), "u32": (0, 2 ** 32 - 1), "u64": (0, 2 ** 64 - 1),
              "usize": (0, 2 ** 64 - 1), "i8": (-128, 127), "i16": (-32768, 32767), "i32": (-2 ** 31, 2 ** 31 - 1),
              "i64": (-2 ** 63, 2 ** 63 - 1), "isize": (-2 ** 63, 2 ** 63 - 1)}
     if ty not in table:
